@@ -3,6 +3,7 @@ package main
 import (
 	"bufio"
 	"fmt"
+	"strings"
 )
 
 // shadow handle: the generator's own bookkeeping of what each handle holds, only used to
@@ -100,6 +101,8 @@ func genHistoryFrom(g *Gen, w *bufio.Writer, t *Ty, v *Val, o histOpts) {
 }
 
 func genHistoryBody(g *Gen, w *bufio.Writer, t *Ty, v *Val, o histOpts) {
+	g.unhashed = !o.hcount // C07 counts hash calls under the premise that inserted values are hashed
+	defer func() { g.unhashed = false }()
 	root := &shadow{name: "r", t: t, v: v}
 	handles := []*shadow{root}
 	nh := 0
@@ -218,7 +221,8 @@ func genHistoryBody(g *Gen, w *bufio.Writer, t *Ty, v *Val, o histOpts) {
 		if mutated {
 			h.writeBack()
 		}
-		if o.obsEvery || mutated {
+		// C06: root requests at a random subset of the positions (otherwise after every mutation)
+		if o.obsEvery || (mutated && (!o.memo || g.Chance(55))) {
 			if g.Chance(30) {
 				fmt.Fprintln(w, "obsg r")
 			} else {
@@ -314,7 +318,7 @@ func (g *Gen) mutate(w *bufio.Writer, h *shadow) bool {
 			return false
 		}
 		nv := g.RandVal(et, 20)
-		fmt.Fprintf(w, "set %s %d %s\n", h.name, i, nv)
+		fmt.Fprintf(w, "%s %s %d %s\n", g.insOp("set"), h.name, i, nv)
 		if int(i) < len(h.v.Seq) {
 			c := cloneVal(h.v)
 			c.Seq[i] = nv
@@ -346,7 +350,7 @@ func (g *Gen) mutate(w *bufio.Writer, h *shadow) bool {
 			return false
 		case r < 40:
 			nv := g.RandVal(h.t.Elem, 20)
-			fmt.Fprintf(w, "app %s %s\n", h.name, nv)
+			fmt.Fprintf(w, "%s %s %s\n", g.insOp("app"), h.name, nv)
 			if uint64(len(h.v.Seq)) < h.t.N {
 				c := cloneVal(h.v)
 				c.Seq = append(c.Seq, nv)
@@ -366,7 +370,7 @@ func (g *Gen) mutate(w *bufio.Writer, h *shadow) bool {
 		default:
 			i, et := g.pickIndex(h)
 			nv := g.RandVal(et, 20)
-			fmt.Fprintf(w, "set %s %d %s\n", h.name, i, nv)
+			fmt.Fprintf(w, "%s %s %d %s\n", g.insOp("set"), h.name, i, nv)
 			if int(i) < len(h.v.Seq) {
 				c := cloneVal(h.v)
 				c.Seq[i] = nv
@@ -425,11 +429,11 @@ func (g *Gen) mutate(w *bufio.Writer, h *shadow) bool {
 				h.v = &Val{Kind: VUnion, Sel: 0, Inner: &Val{Kind: VNone}}
 				return true
 			}
-			fmt.Fprintf(w, "chg %s %d %s\n", h.name, sel, g.RandVal(h.t.Fields[0], 10))
+			fmt.Fprintf(w, "%s %s %d %s\n", g.insOp("chg"), h.name, sel, g.RandVal(h.t.Fields[0], 10))
 			return false
 		}
 		nv := g.RandVal(ot, 20)
-		fmt.Fprintf(w, "chg %s %d %s\n", h.name, sel, nv)
+		fmt.Fprintf(w, "%s %s %d %s\n", g.insOp("chg"), h.name, sel, nv)
 		h.v = &Val{Kind: VUnion, Sel: sel, Inner: nv}
 		return true
 	}
@@ -464,6 +468,7 @@ func init() {
 		for _, t := range histTypes(g, n) {
 			genHistory(g, w, t, histOpts{steps: 6 + g.Intn(tierN(tier, 25, 150)), copies: true, memo: true})
 		}
+		genSubsetHist(g, tier, w)
 	})
 	registerGen("C07", func(g *Gen, tier string, w *bufio.Writer) {
 		n := tierN(tier, 300, 5000)
@@ -482,12 +487,63 @@ func init() {
 	})
 }
 
+// genSubsetHist (C06): bounded histories over the small types of genExhaustiveHist with a root
+// request inserted at EVERY subset of the positions; inserted values hashed beforehand or not.
+// The final observation must not depend on the subset (PROP compares it with the value machine).
+func genSubsetHist(g *Gen, tier string, w *bufio.Writer) {
+	maxLen := 3
+	if tier == "thorough" {
+		maxLen = 4
+	}
+	for _, t := range exhaustiveTypes() {
+		ops := candidateOps(t)
+		var rec func(prefix []string)
+		rec = func(prefix []string) {
+			n := len(prefix)
+			// quick: all histories of length <= 2, a tenth of the longer ones
+			if n > 0 && (tier == "thorough" || n <= 2 || g.Chance(10)) {
+				for subset := 0; subset < 1<<uint(n); subset++ {
+					for _, unhashed := range []bool{false, true} {
+						fmt.Fprintln(w, "begin")
+						fmt.Fprintf(w, "mk r def %s\n", t)
+						if subset&1 != 0 && n > 1 { // bit 0 doubles as "request before the first step"
+							fmt.Fprintln(w, "obs r")
+						}
+						for k, o := range prefix {
+							if unhashed {
+								for _, pre := range []string{"set ", "app ", "chg "} {
+									if strings.HasPrefix(o, pre) {
+										o = pre[:3] + "u " + o[4:]
+									}
+								}
+							}
+							fmt.Fprintln(w, o)
+							if subset>>uint(k)&1 != 0 && k < n-1 {
+								fmt.Fprintln(w, "obs r")
+							}
+						}
+						fmt.Fprintln(w, "obs r")
+						fmt.Fprintln(w, "memo r")
+					}
+				}
+			}
+			if n == maxLen {
+				return
+			}
+			for _, o := range ops {
+				rec(append(append([]string{}, prefix...), o))
+			}
+		}
+		rec(nil)
+	}
+}
+
 // genExhaustiveHist: all histories up to a bounded length over a set of small types with 2-3
 // candidate values per slot.
-func genExhaustiveHist(g *Gen, tier string, w *bufio.Writer) {
+func exhaustiveTypes() []*Ty {
 	u8 := &Ty{Kind: KUint, N: 1}
 	u64 := &Ty{Kind: KUint, N: 8}
-	types := []*Ty{
+	return []*Ty{
 		{Kind: KList, N: 3, Elem: u8},
 		{Kind: KList, N: 5, Elem: u64},
 		{Kind: KBitlist, N: 3},
@@ -500,12 +556,16 @@ func genExhaustiveHist(g *Gen, tier string, w *bufio.Writer) {
 		{Kind: KUnion, Fields: []*Ty{u8, {Kind: KBitlist, N: 2}}},
 		{Kind: KList, N: 1 << 40, Elem: u64},
 		{Kind: KVector, N: 2, Elem: &Ty{Kind: KList, N: 2, Elem: u8}},
+		{Kind: KVector, N: 3, Elem: &Ty{Kind: KContainer, Fields: []*Ty{u64, u64}}},
 	}
+}
+
+func genExhaustiveHist(g *Gen, tier string, w *bufio.Writer) {
 	maxLen := 3
 	if tier == "thorough" {
 		maxLen = 5
 	}
-	for _, t := range types {
+	for _, t := range exhaustiveTypes() {
 		ops := candidateOps(t)
 		var rec func(prefix []string)
 		rec = func(prefix []string) {
@@ -513,6 +573,19 @@ func genExhaustiveHist(g *Gen, tier string, w *bufio.Writer) {
 				fmt.Fprintln(w, "begin")
 				fmt.Fprintf(w, "mk r def %s\n", t)
 				for _, o := range prefix {
+					fmt.Fprintln(w, o)
+				}
+				fmt.Fprintln(w, "obs r")
+				// the same history with inserted values that were never hashed, and no root request
+				// before the last step
+				fmt.Fprintln(w, "begin")
+				fmt.Fprintf(w, "mk r def %s\n", t)
+				for _, o := range prefix {
+					for _, pre := range []string{"set ", "app ", "chg "} {
+						if strings.HasPrefix(o, pre) {
+							o = pre[:3] + "u " + o[4:]
+						}
+					}
 					fmt.Fprintln(w, o)
 				}
 				fmt.Fprintln(w, "obs r")
@@ -546,6 +619,9 @@ func candidateOps(t *Ty) []string {
 	case KVector:
 		if t.Elem.Kind == KUint {
 			return []string{"set r 0 n3", "set r 1 n4", "set r 2 n5"}
+		}
+		if t.Elem.Kind == KContainer {
+			return []string{"set r 0 s 2 n1 n2", "set r 1 s 2 n3 n4", "set r 0 s 2 n5 n6", "get h1 r 0", "set h1 0 n9", "set r 2 s 2 n0 n0"}
 		}
 		return []string{"get h1 r 0", "get h2 r 1", "app h1 n1", "app h2 n2", "pop h1", "set r 0 s 1 n9"}
 	case KBitvector:
